@@ -6,6 +6,7 @@ import ErrModel.Compat
 import ErrModel.Grpc
 import ErrModel.Basic.Redact
 import ErrModel.Engine
+import ErrModel.Report
 /-
   Observation streams printed by the driver (and, identically, by the harness
   from the real code).
@@ -148,7 +149,49 @@ def pFmt (e : Err) : String :=
     pList ["rvred", pStr (redactS rv)],
     pList ["rpvred", pStr (redactS rpv)]]
 
-def obsCase (e : Option Err) (refs : List (Option Err)) : String :=
+/-- parse a printf directive "%[flags][width][.prec]verb" -/
+def parseSpec (s : Str) : Option Spec :=
+  match s with
+  | 37 :: r =>
+    let flags := r.takeWhile (fun c => c = 43 || c = 45 || c = 35 || c = 32 || c = 48)
+    let r1 := r.dropWhile (fun c => c = 43 || c = 45 || c = 35 || c = 32 || c = 48)
+    let wd := r1.takeWhile (fun c => 48 ≤ c && c ≤ 57)
+    let r2 := r1.dropWhile (fun c => 48 ≤ c && c ≤ 57)
+    let (pr, r3) : Option Str × Str := match r2 with
+      | 46 :: t => (some (t.takeWhile (fun c => 48 ≤ c && c ≤ 57)), t.dropWhile (fun c => 48 ≤ c && c ≤ 57))
+      | t => (none, t)
+    match r3 with
+    | [v] => some { verb := v, plus := flags.contains 43, minus := flags.contains 45, sharp := flags.contains 35,
+                    space := flags.contains 32, zero := flags.contains 48,
+                    width := if wd = [] then none else atoiDigits wd 0,
+                    prec := pr.map (fun d => (atoiDigits d 0).getD 0) }
+    | _ => none
+  | _ => none
+
+def pVOut : VOut → String
+  | .direct s => pList ["direct", pStr s]
+  | .viaFmt s => pList ["fmt", pStr s]
+  | .goSyntax => "(gosyntax)"
+  | .bad s => pList ["bad", pStr s]
+
+/-- the verb matrix: for every directive, plain (through Formattable) and redactable -/
+def pVerbs (specs : List Str) (e : Err) : String :=
+  pList (specs.map (fun s => match parseSpec s with
+    | some sp => pList [pStr s, pVOut (formatVerb false sp e), pVOut (formatVerb true sp e)]
+    | none => pList [pStr s, "(badspec)"]))
+
+def pFrame (f : RFrame) : String :=
+  pList [pStr f.function, pStr f.module, pStr f.filename, pStr f.absPath, pStr (intStr f.lineno)]
+
+def pReport (trim : List Str) (e : Err) : String :=
+  let r := buildReport Full vfStub trim e
+  pList ["report",
+    pList ["message", pStr r.message],
+    pList ["exceptions", pList (r.exceptions.map (fun x => pList [pStr x.module, pStr x.type, pStr x.value,
+      match x.frames with | some fs => pList (fs.map pFrame) | none => "(nostack)"]))],
+    pList ["types", pStr r.types]]
+
+def obsCase (e : Option Err) (refs : List (Option Err)) (trim : List Str := []) (specs : List Str := []) : String :=
   match e with
   | none => pList ["res", "(nil)", pList ["is", pList (refs.map fun r => pOB (isOpt Full none r))]]
   | some e =>
@@ -171,6 +214,10 @@ def obsCase (e : Option Err) (refs : List (Option Err)) : String :=
       pList ["compat", pCompat e refs],
       pList ["fmt0", pFmt e],
       pList ["fmt1", pOpt pFmt h1],
+      pList ["rep0", pReport trim e],
+      pList ["rep1", pOpt (pReport trim) h1],
+      pList ["verbs0", pVerbs specs e],
+      pList ["verbs1", pOpt (pVerbs specs) h1],
       pList ["isany", pBool (isAnyB Full e refs)],
       pList ["isanyhalf", pBool (isAnyB Full e (refs.take (refs.length / 2)))]]
 
@@ -207,6 +254,15 @@ def runLine (line : String) : String :=
       match evalRefs fuel e refs with
       | .inl _ => id ++ " (bad refs)"
       | .inr rs => id ++ " " ++ obsCase e rs
+  | some [.sym id, .list [.sym "case", rx, .list refs, .list (.sym "trim" :: ts), .list (.sym "verbs" :: vs)]] =>
+    let fuel := line.length
+    match evalR fuel rx with
+    | .bad why => id ++ " (bad " ++ why ++ ")"
+    | .panic => id ++ " (res (panic))"
+    | .ok e =>
+      match evalRefs fuel e refs with
+      | .inl _ => id ++ " (bad refs)"
+      | .inr rs => id ++ " " ++ obsCase e rs (ts.filterMap sxStr) (vs.filterMap sxStr)
   | some [.sym id, .list [.sym "case4", rx, .list unk]] =>
     match evalR line.length rx with
     | .ok (some e) => id ++ " " ++ obsCase4 e (unk.filterMap sxStr)
